@@ -90,6 +90,7 @@ class Monitors:
         self.case_rules = Counter()      # per case
         self.case_matches = []           # RegexMatch events of the last _match_regex call: (id, mstart, mend)
         self.case_norm = None            # normalised text of the last call
+        self.case_search_text = None
         self.case_raises = []            # exceptions leaving a rule body
         self.snapshots = snapshots
         self.snap_breaches = []
@@ -118,6 +119,7 @@ class Monitors:
         def _match_regex(txt, regexes):
             res = orig_match(txt, regexes)
             mon.case_matches = [(r.id, r.mstart, r.mend) for r in res]
+            mon.case_search_text = txt     # the text the match positions refer to (normalised, labels cut out)
             for r in res:
                 if r.mend <= r.mstart:
                     mon.events["zero_length_match"] += 1
@@ -219,6 +221,7 @@ class Monitors:
         self.case_rules = Counter()
         self.case_matches = []
         self.case_norm = None
+        self.case_search_text = None
         self.case_raises = []
         self.snap_breaches = []
         self.prov = {}
